@@ -8,7 +8,7 @@ for l in open('/verif/properties.jsonl'):
     if p['id'] == pid: break
 else: sys.exit("no such property")
 wt = f"/tmp/seed_{pid}{suf}"
-print(f"""You are helping evaluate a verification effort for the C++ library TASMANIAN (sparse grids, DREAM, optimization). The library source is a git repository at /repo (pinned commit). You must NOT read or touch anything under /verif, and you must NOT modify /repo itself (no edits, no commits, no builds inside /repo or /repo/_build).
+print(f"""You are helping evaluate a verification effort for the C++ library TASMANIAN (sparse grids, DREAM, optimization). The library source is a git repository at /repo (use its current HEAD). You must NOT read or touch anything under /verif, and you must NOT modify /repo itself (no edits, no commits, no builds inside /repo or /repo/_build).
 
 Your job: produce TWO different, independent source changes to TASMANIAN (call them A and B), each of which BREAKS the semantic property below while the library still compiles and the existing test suite still passes. Each change must need something specific to manifest - a particular multi-step sequence of operations, an unusual input/configuration, a particular interleaving or timing, a crash/fault at a particular point, or two cooperating code sites that each look fine alone - NOT something ordinary use or the simplest possible call would expose at once. Make them realistic: the kind of slip a maintainer could make in a refactoring or optimisation (dropped update, wrong bound, stale cache, swapped field, missing sort, early return, missing lock ...). A and B should touch different mechanisms / code sites. Do not merely re-expose a bug that already exists in the pinned tree: the demonstration must PASS on the unmodified tree.
 
